@@ -556,6 +556,7 @@ func checkC07(c *Ctx) {
 		}
 	}
 	sort.Strings(ws)
+	ruleDispatch(c, dv, "R7.6", false, true) // every axis report (incl. the one that crosses the centre) reaches the side logic
 	c.MinCount("R7.1", 5)
 	c.MinCount("R7.4", 1)
 	c.MinCount("R7.5", 2)
